@@ -187,6 +187,21 @@ theorem jsonParam_single_is_lookup (n : Bytes) (p : List PathSeg) (doc : JVal) (
   simp only [jsonParamLabels, List.foldl_cons, List.foldl_nil]
   cases lookupPath doc p <;> rfl
 
+/-- **parameters with pairwise different names, a document read to the end**: the general definition coincides with
+    the reading by lookup — every parameter's label is the scalar `lookupPath` finds for its path, whatever the
+    order of the parameters and of the members of the document (`jsonParamLabels` goes through the parameters in
+    order; the engine goes through the document). -/
+theorem jsonParams_distinct_is_lookup (ps : List Ahead) (hd : (ps.map (·.1)).Nodup) (doc : JVal) (hb : hasBad doc = false)
+    (l : Labels) : jsonPathLabels ps doc l = jsonParamLabels ps doc l := jsonParams_distinct_lookup ps hd doc hb l
+
+/-- the hypothesis "different names" is needed: `p="a", p="b"` on `{"b":"1","a":"2"}` gives `p=2` (the later member of
+    the document), the parameter-order reading would give `p=1` -/
+theorem jsonParams_repeated_name_document_order :
+    let doc := JVal.obj (.cons [98] (.str [49]) (.cons [97] (.str [50]) .nil))
+    let ps : List Ahead := [([112], [.key [97]]), ([112], [.key [98]])]
+    jsonParams ps doc [] = [([112], [50])] ∧ jsonPathLabels ps doc [] = [([112], [50])] ∧
+    jsonParamLabels ps doc [] = [([112], [49])] := by decide
+
 /-- which parsers the in-process engine has: `json` and `logfmt`; `regexp`, `pattern`, `unpack` are answered
     `NotSupported` (the switch of `ParserPlanner.Process`, regenerated) -/
 theorem parser_ops_modelled :
